@@ -34,8 +34,10 @@ class Env:
             return ret(m, n)
         vm.add_model(r'^ArraySubset::num_elements_usize$', nelem)
         vm.add_model(r'anyhow::Context<.*>>::context::<', lambda vm, m, c, a: ret(m, a[0]))
+        vm.add_model(r'anyhow::Context<.*>>::with_context::<', lambda vm, m, c, a: ret(m, a[0]))
         def store(kind):
             def h(vm, m, c, a):
+                if m.ghost.get('fail'): m.log('events', ('store:failed',)) if 'events' in m.ghost else None; return ret(m, ERR(Opaque('ArrayError')))
                 if kind == 'chunk': idx = slice_items(vm, m, a[1]); vals = deref_val(vm, m, a[2]); m.log('writes', ('chunk', tuple(idx), None, tuple(vals.items), _atag(vm, m, a[0])))
                 elif kind == 'chunk_subset':
                     idx = slice_items(vm, m, a[1]); sub = deref_val(vm, m, a[2]); vals = deref_val(vm, m, a[3])
@@ -73,8 +75,8 @@ def run(rep):
                   'store': 'sync store_zarr_chunk, array rank 2 and 3'}
     rep.assumptions += ['the zarrs Array is the environment: store_chunk(indices, values) writes one whole chunk at chunk-grid position `indices`; store_chunk_subset(indices, subset, values) writes `subset` relative to that chunk; store_array_subset(subset, values) writes at absolute array coordinates; the chunk size of the draw axis equals the buffer size (full_at)',
                         'one chain, one variable; the per-variable buffers are independent']
-    rep.outside += ['zarrs I/O, codecs, file system, crash consistency of the store itself', 'the async copy of store_zarr_chunk and the task that queues a write (queue_write)', 'finalisation trimming of event arrays']
-    parts(rep, [lambda: scripts(rep, mir, L, maxlen), lambda: async_flush(rep, mir, L), lambda: async_queue(rep, mir, L), lambda: sync_chain_storage(rep, mir, L), lambda: native_zarr(rep)])
+    rep.outside += ['zarrs I/O, codecs, file system, crash consistency of the store itself', 'what tokio does with a spawned write between queue_write and the join (scheduling); the zarrs futures answer Ready / Pending as an oracle', 'finalisation trimming of event arrays']
+    parts(rep, [lambda: scripts(rep, mir, L, maxlen), lambda: async_flush(rep, mir, L), lambda: async_queue(rep, mir, L), lambda: sync_chain_storage(rep, mir, L), lambda: async_writer(rep, mir, L), lambda: native_zarr(rep)])
 
 def scripts(rep, mir, L, maxlen):
     new = mir.method('SampleBuffer', None, 'new'); push = mir.method('SampleBuffer', None, 'push'); reset = mir.method('SampleBuffer', None, 'reset')
@@ -332,6 +334,83 @@ def sync_chain_storage(rep, mir, L):
     if not bad: rep.holds('C15.C sync ZarrChainStorage end to end (chunk size 1-3, 1-%d draws, every warm-up/sampling split, flush after every draw / every 2nd / every 3rd / never, finalize): every array holds exactly the draws of its phase recorded so far, in order; flush does not change the storage (%d runs, %d flushes)' % (NMAX, nruns, nflush), time.time() - t0)
     rep.cover('C15.C flushes executed', nflush > 0)
 
+
+def async_writer(rep, mir, L):
+    """C15.D  the async chunk writer store_zarr_chunk_async (the state machine rustc generates for the async fn, driven poll by poll with every zarrs
+    future answering Ready or - a bounded number of times - Pending) is the twin of the sync writer store_zarr_chunk, which C15.A / C15.C decide:
+    for every chunk (all six value kinds, full / partial / empty, chunk index 0..2, chain row 0 and 3, scalar and width-2 items) both issue the same
+    zarrs store calls with the same indices, subsets and values on the same array, and return Ok; a failing store call makes the writer return Err."""
+    from ..vm import Coro
+    t0 = time.time(); sync = mir.find(r'^store_zarr_chunk$'); mk = mir.find(r'^store_zarr_chunk_async$'); bad = {}; n = 0; reached = set()
+    MAXPEND = 1
+    kinds = ('F64', 'F32', 'Bool', 'I64', 'U64', 'String')
+    for t in kinds:
+        for (width, rank) in ((1, 2), (2, 3)):
+            if t == 'String' and width == 2: continue
+            for c in (1, 2, 3):
+                for ln in range(0, c + 1):
+                    for cidx in ((0, 2) if rep.tier == 'quick' else (0, 1, 2)):
+                        for chain in (0, 3):
+                            for fail in (False, True):
+                                E = Env(mir, L); vm = E.vm; _install_tokio(vm, mir, MAXPEND); A = E.A
+                                en = vm.enums['SampleBufferValue']
+                                if t in ('F64', 'F32'): vals = [A.fresh('v%d' % j) for j in range(ln * width)]
+                                elif t == 'Bool': vals = [z3.Bool('v%d' % j) for j in range(ln * width)]
+                                elif t == 'String': vals = [Str('s%d' % j) for j in range(ln * width)]
+                                else: vals = [z3.Int('v%d' % j) for j in range(ln * width)]
+                                def chunk(): return L.make('Chunk', {'chunk_idx': cidx, 'len': ln, 'full_at': c, 'values': Enum(en.index(t), t, (Seq(list(vals)),), 'SampleBufferValue')})
+                                def machine():
+                                    m = Machine(); m.ghost['writes'] = []; m.ghost['events'] = []; m.ghost['rank'] = rank; m.ghost['fail'] = fail
+                                    m.ghost['shape_cell'] = m.alloc(Seq([8, 1000] + ([width] if rank == 3 else []))); return m
+                                # zarrs async stores: the call builds a future, its poll performs (logs) the store or answers Pending
+                                def mkfut(kind):
+                                    return lambda vm, m, c_, a: ret(m, Struct((kind, tuple(a)), 'ZFut'))
+                                for kind in ('chunk', 'chunk_subset', 'array_subset'): vm.add_model(r'::async_store_%s::<' % kind, mkfut(kind))
+                                def poll_store(vm, m, c_, a):
+                                    f = a[0]
+                                    while not (isinstance(f, Struct) and f.ty == 'ZFut'): f = deref_val(vm, m, f.f[0] if isinstance(f, Struct) else f)
+                                    kind, args = f.f; outs = []
+                                    if len([e for e in m.ghost['events'] if e == ('pending:store',)]) < MAXPEND:
+                                        m2 = m.clone(); m2.log('events', ('pending:store',)); outs.append((m2, 'ret', Enum(1, 'Pending', (), 'Poll')))
+                                    m1 = m.clone()
+                                    h = [hh for (rx, hh) in vm.models if rx.pattern == r'::store_%s::<' % kind][0]
+                                    for (m3, k3, v3) in h(vm, m1, 'store', list(args)): outs.append((m3, k3, Enum(0, 'Ready', (v3,), 'Poll')))
+                                    return outs
+                                vm.add_model(r'^<\{async fn body of .*::async_store_(chunk|chunk_subset|array_subset)<.*>\(\)\} as Future>::poll$', poll_store)
+                                # sync reference
+                                ms = machine(); arr = Opaque('array'); arr.tag = 'the array'
+                                o = vm.run(sync, [Ref(ms.alloc(arr)), chunk(), chain], ms)
+                                if len(o) != 1 or o[0][1] != 'ret': bad.setdefault('sync', ('store_zarr_chunk forks or panics', (t, width, c, ln, cidx, chain, fail))); continue
+                                (ms, _, rs) = o[0]
+                                # async twin: build the coroutine, then poll until Ready
+                                ma = machine(); arr2 = Opaque('array'); arr2.tag = 'the array'
+                                o = vm.run(mk, [Ref(ma.alloc(arr2)), chunk(), chain], ma)
+                                if len(o) != 1 or o[0][1] != 'ret' or not isinstance(o[0][2], Coro): bad.setdefault('coroutine', ('store_zarr_chunk_async does not build its coroutine', str(o[0][2])[:100])); continue
+                                (ma, _, coro) = o[0]; poll = mir.get('store_zarr_chunk_async::{closure#0}'); cell = ma.alloc(coro); work = [(ma, 0)]; finals = []
+                                while work:
+                                    mm, k = work.pop()
+                                    if k > 3 * MAXPEND + 4: raise VMError('async writer: poll bound exceeded')
+                                    for (m2, kk, v) in vm.exec_fn(mm, poll, [Struct((Ref(cell),), 'Pin'), Ref(mm.alloc(Opaque('task context')))]):
+                                        if kk != 'ret': finals.append((m2, kk, v)); continue
+                                        if v.name == 'Ready': finals.append((m2, 'ret', v.f[0]))
+                                        else: work.append((m2, k + 1))
+                                n += len(finals); rep.absorb_vm(vm)
+                                where = {'kind': t, 'width': width, 'chunk size': c, 'len': ln, 'chunk_idx': cidx, 'chain': chain, 'store fails': fail}
+                                for (m2, kk, v) in finals:
+                                    if kk != 'ret': bad.setdefault('panic', ('the async writer panics where the sync one does not: %s' % (str(v)[:120],), where)); continue
+                                    if any(e == ('pending:store',) for e in m2.ghost['events']): reached.add('pending')
+                                    if v.name != rs.name: bad.setdefault('result', ('async writer returns %s, sync writer %s' % (v.name, rs.name), where)); continue
+                                    if fail:
+                                        reached.add('fail' if ms.ghost['writes'] == [] and ln > 0 else 'fail-empty'); continue
+                                    wa, ws = m2.ghost['writes'], ms.ghost['writes']
+                                    same = len(wa) == len(ws) and all(x[0] == y[0] and x[1] == y[1] and x[2] == y[2] and x[4] == y[4] and len(x[3]) == len(y[3]) and all(eqv(p, q) or (isinstance(p, Str) and isinstance(q, Str) and p.s == q.s) for p, q in zip(x[3], y[3])) for x, y in zip(wa, ws))
+                                    if not same: bad.setdefault('writes', ('the async writer issues different store calls than the sync writer: async %s, sync %s' % (str(wa)[:200], str(ws)[:200]), where))
+                                    reached.add('empty' if ln == 0 else ('full' if ln == c else 'partial') + ('-string' if t == 'String' else ''))
+    rep.paths += n
+    for r in ('full', 'partial', 'empty', 'full-string', 'partial-string', 'pending', 'fail'): rep.cover('C15.D async writer case exercised: ' + r, r in reached)
+    for key, (what, where) in bad.items():
+        rep.violated('C15.D async writer ' + key, 'async.writer.' + key, '%s (%s)' % (what, where), model={'where': str(where)})
+    if not bad: rep.holds('C15.D store_zarr_chunk_async (coroutine, polled with Pending answers) issues exactly the store calls of the sync writer store_zarr_chunk and returns Ok; Err when a store call fails (%d polled runs)' % n, time.time() - t0)
 
 def native_zarr(rep):
     """model validation through the real build (not a deciding step): the same seeded two-chain run is stored by the HashMap backend and by the sync
